@@ -408,6 +408,21 @@ func c17DRandomScenario(rng *Rng) c17DScenario {
 		lines(rng.Intn(2))
 		sc.Main = append(sc.Main, c17DItem{Inc: &c17DInclude{0, Pick(rng, []string{"./inc.mk", "../../CAT/pa/inc.mk", "../pa/inc.mk"})}})
 		lines(rng.Intn(3))
+	case shape < 95: // a condition that reads a variable through another one
+		sc.Shape = "indirect-condition"
+		ref := c17DLine{Kind: "assign", Var: "VB", Op: Pick(rng, []string{"=", "+=", "?="}), Val: []c17Chunk{{true, "VA"}}}
+		sc.Main = append(sc.Main, c17DItem{Line: &ref})
+		if rng.Chance(40) {
+			ref2 := c17DLine{Kind: "assign", Var: "VC", Op: "=", Val: []c17Chunk{{true, "VB"}}}
+			sc.Main = append(sc.Main, c17DItem{Line: &ref2})
+		}
+		nv, focus = 1, true // the lines around the condition assign VA
+		lines(1 + rng.Intn(2))
+		cnd := c17DLine{Kind: "if", Cond: Pick(rng, []string{"empty", "empty", "defined"}), Neg: rng.Chance(50), CVar: Pick(rng, []string{"VB", "VB", "VC"})}
+		body := c17DLine{Kind: "assign", Var: "VD", Op: "=", Val: []c17Chunk{{false, "x"}}}
+		end := c17DLine{Kind: "endif"}
+		sc.Main = append(sc.Main, c17DItem{Line: &cnd}, c17DItem{Line: &body}, c17DItem{Line: &end})
+		lines(1 + rng.Intn(2))
 	default: // no include at all
 		sc.Shape = "makefile-only"
 		lines(3 + rng.Intn(5))
@@ -461,6 +476,13 @@ func c17DFixedScenarios() []c17DScenario {
 				Main:  []c17DItem{it(a("VA", "=", "a")), inc(0, sp), it(a("VA", "=", "b"))},
 				Frags: []c17DFrag{{loc, append(append([]c17DLine{}, nb...), cnd, a("VB", "=", "a"), c17DLine{Kind: "endif"})}}})
 		}
+	}
+	// a condition reads a variable through another one (Var.Refs, eagerly)
+	for _, cnd := range []c17DLine{{Kind: "if", Cond: "empty", Neg: true, CVar: "VB"}, {Kind: "if", Cond: "empty", CVar: "VC"}} {
+		out = append(out, c17DScenario{Shape: "indirect-condition",
+			Main: []c17DItem{it(c17DLine{Kind: "assign", Var: "VB", Op: "=", Val: []c17Chunk{{true, "VA"}}}),
+				it(c17DLine{Kind: "assign", Var: "VC", Op: "=", Val: []c17Chunk{{true, "VB"}}}),
+				it(a("VA", "=", "a")), it(cnd), it(a("VD", "=", "x")), it(c17DLine{Kind: "endif"}), it(a("VA", "=", "b"))}})
 	}
 	for _, sp := range []string{"./inc.mk", "../../CAT/pa/inc.mk", "../pa/inc.mk"} {
 		out = append(out, c17DScenario{Shape: "same-file-twice",
